@@ -76,6 +76,11 @@ fn probe_files() -> Vec<(String, String)> {
         ("src/mod/init.lua".into(), "-- folder module\nreturn { mod = true }\n".into()),
         ("lib/extra.lua".into(), "return 'extra'\n".into()),
         ("header.txt".into(), "header from file\nsecond line".into()),
+        // a Rojo sourcemap for the roblox require mode
+        (
+            "sourcemap.json".into(),
+            r#"{"name":"game","className":"DataModel","children":[{"name":"src","className":"Folder","children":[{"name":"a","className":"ModuleScript","filePaths":["src/a.lua"]},{"name":"c","className":"ModuleScript","filePaths":["src/c.luau"]},{"name":"dep","className":"ModuleScript","filePaths":["src/dep.lua"]},{"name":"mod","className":"ModuleScript","filePaths":["src/mod/init.lua"]},{"name":"sub","className":"Folder","children":[{"name":"b","className":"ModuleScript","filePaths":["src/sub/b.lua"]}]}]}]}"#.into(),
+        ),
         // alias requires in files of their own (an unresolved alias fails the whole file): one alias
         // comes from a .luaurc (read unless use_luau_configuration is false), one only from the
         // configuration's own sources / aliases
